@@ -107,6 +107,13 @@ def check_url_schemes(inst: "MdParserConfig", field: dc.Field, value: Any) -> No
     setattr(inst, field.name, new_dict)
 
 
+def check_positive_int(_: "MdParserConfig", field: dc.Field, value: Any) -> None:
+    """Check that the value is a positive integer"""
+    instance_of(int)(_, field, value)
+    if value <= 0:
+        raise ValueError(f"'{field.name}' must be a positive integer: {value}")
+
+
 def check_sub_delimiters(_: "MdParserConfig", field: dc.Field, value: Any) -> None:
     """Check that the sub_delimiters are a tuple of length 2 of strings of length 1"""
     if (not isinstance(value, tuple | list)) or len(value) != 2:
@@ -340,8 +347,8 @@ class MdParserConfig:
     words_per_minute: int = dc.field(
         default=200,
         metadata={
-            "validator": instance_of(int),
-            "help": "For reading speed calculations",
+            "validator": check_positive_int,
+            "help": "For reading speed calculations (a positive integer)",
         },
     )
 
